@@ -45,6 +45,14 @@ def _run(args):
         return {"unit": name, "obligations": [o.to_json() if hasattr(o, "to_json") else o for o in obs],
                 "info": info, "wall_s": round(time.time() - t0, 3), "sha": u.sha(_G["world"]),
                 "kind": getattr(u, "kind", "rule")}
+    except KeyError as e:
+        # a function the unit is about no longer exists under that name: nothing is decided (its obligations will be
+        # reported as no longer generated), it is not an error of the checker
+        if isinstance(e.args[0] if e.args else None, str) and "." in e.args[0]:
+            return {"unit": name, "obligations": [], "info": {"paths": 0, "missing_function": e.args[0]},
+                    "wall_s": round(time.time() - t0, 3), "sha": "missing", "kind": getattr(u, "kind", "rule")}
+        return {"unit": name, "error": traceback.format_exc(), "obligations": [], "info": {},
+                "wall_s": round(time.time() - t0, 3)}
     except Exception:
         return {"unit": name, "error": traceback.format_exc(), "obligations": [], "info": {},
                 "wall_s": round(time.time() - t0, 3)}
